@@ -147,6 +147,7 @@ func (n *Net) gossip(from int, kind string, b []byte) {
 					return
 				}
 				if kind == "nfl" {
+					n.logDelivery(in.Name, b)
 					in.VI.Nflog.Merge(b)
 				} else {
 					in.VI.Silences.Merge(b)
@@ -157,6 +158,26 @@ func (n *Net) gossip(from int, kind string, b []byte) {
 			}()
 		}
 	}
+}
+
+// Delivery is one notification-log entry handed to an instance's Merge by the simulated network.
+type Delivery struct {
+	Key string    `json:"key"`
+	TS  time.Time `json:"ts"`
+}
+
+// logDelivery records which log entries were handed to the instance (before Merge is called).
+func (n *Net) logDelivery(instance string, b []byte) {
+	es, _ := sim.DecodeNflog(b)
+	var ds []Delivery
+	for _, e := range es {
+		if e.Entry == nil || e.Entry.Receiver == nil {
+			continue
+		}
+		w := sim.NflogWrite{GroupKey: string(e.Entry.GroupKey), Receiver: e.Entry.Receiver.GroupName, Integ: e.Entry.Receiver.Integration, Idx: int(e.Entry.Receiver.Idx)}
+		ds = append(ds, Delivery{Key: w.Key(), TS: e.Entry.Timestamp.AsTime()})
+	}
+	n.log.Add(sim.Event{T: time.Now(), Kind: "deliver", Instance: instance, Data: ds})
 }
 
 // fullState exchanges the complete state between two connected live instances (both directions).
@@ -172,6 +193,7 @@ func (n *Net) fullState(a, b int) {
 	}
 	for _, dir := range [][2]*sim.Instance{{ia, ib}, {ib, ia}} {
 		if b, err := dir[0].VI.Nflog.MarshalBinary(); err == nil && len(b) > 0 {
+			n.logDelivery(dir[1].Name, b)
 			dir[1].VI.Nflog.Merge(b)
 		}
 		if b, err := dir[0].VI.Silences.MarshalBinary(); err == nil && len(b) > 0 {
